@@ -232,29 +232,23 @@ Theorem partial_derivative_leaf_good : forall (c dx : R) (n : nat) (m : meth) (p
 Proof. exact leaf_good_pderiv_1d. Qed.
 
 (* Real <-> complex operators, realified (C^n = R^2n as re ++ im with weights w ++ w, so that
-   [cinner] is the REAL PART of the complex inner product): RealPart/ImagPart of a real space,
-   ComplexEmbedding(s) of a complex space (any s, any weights), and -- for the repaired variant
-   fx = true, in which RealPart(X).adjoint is defined on X.real_space -- RealPart, ImagPart,
-   ComplexEmbedding(real space, s) in all three branches of its adjoint (s real / imaginary / general). *)
+   [cinner] is the REAL PART of the complex inner product): RealPart/ImagPart of a real and of a
+   complex space, ComplexEmbedding(s) of a complex space (any s, any weights) and of a real space in all
+   three branches of its adjoint (s real / imaginary / general).  RealPart(X).adjoint is modelled as the
+   repaired code returns it (ComplexEmbedding on X.real_space, /repo commit 8efcc84). *)
 Theorem realpart_real_adjoint : forall w : list R, leaf_ok (LRealR w).
 Proof. exact leaf_ok_realR. Qed.
 Theorem imagpart_real_adjoint : forall w : list R, leaf_ok (LImagR w).
 Proof. exact leaf_ok_imagR. Qed.
 Theorem complex_embedding_complex_adjoint : forall (w : list R) (sr si : R), leaf_ok (LEmbedC w sr si).
 Proof. exact leaf_ok_embedC. Qed.
-Theorem realpart_complex_adjoint_fixed_variant : forall w : list R, leaf_ok (LRealC w true).
-Proof. exact leaf_ok_realC_fixed. Qed.
-Theorem imagpart_complex_adjoint_fixed_variant : forall w : list R, leaf_ok (LImagC w true).
-Proof. exact leaf_ok_imagC_fixed. Qed.
-Theorem complex_embedding_real_adjoint_fixed_variant : forall (w : list R) (sr si : R), leaf_ok (LEmbedR w sr si true).
-Proof. exact leaf_ok_embedR_fixed. Qed.
-Print Assumptions complex_embedding_real_adjoint_fixed_variant.
-(* FULL STATEMENT for the pinned source (fx = false) is false: the returned adjoint is an operator on
-   the COMPLEX space (finding realpart-complex-adjoint-domain) *)
-Theorem realpart_complex_adjoint_domain_refuted :
-  dom (leaf_adjoint (LRealC [1%R] false)) <> leaf_ran (LRealC [1%R] false)
-  /\ dom (leaf_adjoint (LImagC [1%R] false)) <> leaf_ran (LImagC [1%R] false).
-Proof. exact realC_adjoint_domain_refuted. Qed.
+Theorem realpart_complex_adjoint : forall w : list R, leaf_ok (LRealC w).
+Proof. exact leaf_ok_realC. Qed.
+Theorem imagpart_complex_adjoint : forall w : list R, leaf_ok (LImagC w).
+Proof. exact leaf_ok_imagC. Qed.
+Theorem complex_embedding_real_adjoint : forall (w : list R) (sr si : R), leaf_ok (LEmbedR w sr si).
+Proof. exact leaf_ok_embedR. Qed.
+Print Assumptions complex_embedding_real_adjoint.
 
 (* ------------------------------------------------------------------------
    The full statement is FALSE of the faithful model on non-uniformly weighted
@@ -338,15 +332,15 @@ Proof.
   - repeat constructor.
 Qed.
 
-(* non-vacuity for the realified reading: a real <-> complex tree (repaired variant) satisfies the
+(* non-vacuity for the realified reading: a real <-> complex tree satisfies the
    premise of expr_adjoint_sound_real, so the identity holds for it in the real part *)
 Definition ex_mixed : oexpr R :=
-  Comp (Sum (LScal 2 (Leaf (LRealC [1; 1] true))) (LScal 3 (Leaf (LImagC [1; 1] true))))
-       (Leaf (LEmbedR [1; 1] 1 2 true)).
+  Comp (Sum (LScal 2 (Leaf (LRealC [1; 1]))) (LScal 3 (Leaf (LImagC [1; 1]))))
+       (Leaf (LEmbedR [1; 1] 1 2)).
 Example ex_mixed_premises : wf leaf_ok ex_mixed.
 Proof.
   cbn [ex_mixed wf]. repeat match goal with |- _ /\ _ => split end; try reflexivity.
-  - apply leaf_ok_realC_fixed.
-  - apply leaf_ok_imagC_fixed.
-  - apply leaf_ok_embedR_fixed.
+  - apply leaf_ok_realC.
+  - apply leaf_ok_imagC.
+  - apply leaf_ok_embedR.
 Qed.
